@@ -726,6 +726,10 @@ def run_case(case, keep_world=False):
                              max_loop_iterations=wopt.get("max_loop_iterations", 100),
                              time_resolution=wopt.get("time_resolution", 1.0),
                              mosaik_config={"stop_timeout": 1, "start_timeout": 5})
+        if world.loop is not loop:
+            # the harness observes and steers the run through World's documented asyncio_loop parameter
+            from mvf.core import HarnessError
+            raise HarnessError("World(asyncio_loop=...) did not adopt the given event loop: the harness cannot run")
         ents = {}
 
         def build(tree):
